@@ -12,6 +12,7 @@ evaluated witness below.
 import Ajson.Model.Mutate
 import Ajson.Proofs.MutBasics
 import Ajson.Proofs.CloneFrame
+import Ajson.Proofs.Acyclic
 import Ajson.Model.Decode
 import Ajson.Spec.WF
 
@@ -24,6 +25,13 @@ theorem C14_detached_and_disjoint (h : Heap) (n : Nat) (hs : SubTree h h.size n 
     (∀ m : Nat, m < h.size → (h.clone n).1.get m = h.get m) ∧
     (∀ m : Nat, Reach (h.clone n).1 (h.clone n).2 m → h.size ≤ m ∧ m < (h.clone n).1.size) ∧
     (h.clone n).1.datas = h.datas := clone_ok h n hs
+
+/-- … in particular for EVERY node of every sound acyclic heap (every parsed document, and whatever the proved mutators make of it) -/
+theorem C14_on_sound_heaps {h : Heap} (hs : Struct h) (ha : Acyc h) (n : Nat) (hn : n < h.size) :
+    (h.clone n).2 = h.size ∧ ((h.clone n).1.get (h.clone n).2).parent = none ∧
+    (∀ m : Nat, m < h.size → (h.clone n).1.get m = h.get m) ∧
+    (∀ m : Nat, Reach (h.clone n).1 (h.clone n).2 m → h.size ≤ m ∧ m < (h.clone n).1.size) ∧
+    (h.clone n).1.datas = h.datas := clone_ok h n (clone_hypothesis hs ha n hn)
 
 /-- the hypothesis is satisfiable: a two-level tree -/
 example : ∃ h : Heap, SubTree h h.size 0 h.size ∧ 1 < h.size :=
